@@ -1,5 +1,5 @@
 """C20 — recursion and aggregation: three-way Fiat–Shamir schedule duality and structural must-calls."""
-from ..core import norm, short, AnchorMissing, walk, callee, peel
+from ..core import expr_str, pat_bindings, norm, short, AnchorMissing, walk, callee, peel
 from ..engines import sched, schednorm, hirq, mustcall as mc, reach
 from .. import tables
 from . import c01
@@ -102,6 +102,8 @@ def run(ck):
         ck.count(f'{rule} ops', schednorm.count_ops(trees[1]))
     r4_limits(ck, w)
     r5_mustcalls(ck, w)
+    r7_lagrange(ck, w)
+    r8_instance_split(ck, w)
     from ..engines import fsbind
     ck.rule('C20.R6', 'Fiat–Shamir statement binding: in ipa_prove / ipa_verify and the in-circuit parse_trace every statement input (bases, claimed values, key, '
                       'instances) is absorbed before the first challenge is squeezed from the same transcript')
@@ -180,3 +182,56 @@ def r5_mustcalls(ck, w):
                         routed.add(p.rsplit('::', 1)[-1])
     ck.record('C20.R5', 'from_dual_msm:label-routing', {'Fixed', 'Permutation', 'Custom'} <= routed, f'fixed-base routing for {sorted(routed)}',
               f'Accumulator::from_dual_msm no longer routes Fixed/Permutation/-G labels into the fixed-base scalars (routed: {sorted(routed)})', hirq.fn_loc(g))
+
+
+def r7_lagrange(ck, w):
+    """the Lagrange bases of the aggregator cover every accumulator scalar, for every number of proofs"""
+    ck.rule('C20.R7', 'LightAggregator::init keeps enough Lagrange commitments for every NB_PROOFS: the accumulator scalars are committed in the committed-instance '
+                      'column of the aggregator circuit, so the exact bound is the domain size; the list must not be truncated by an arithmetical estimate built '
+                      'from column counts (fixed + advice + instance + permutation + 3*lookups per proof undercounts for NB_PROOFS = 1: quotient pieces, '
+                      'permutation products, opening proof…), otherwise aggregate_proofs slices out of range (panic) and k = 1 cannot be aggregated')
+    fs = [f for f in w.all_fns(['aggregator']) if f['name'] == 'init' and 'LightAggregator' in f['_nid']]
+    if not fs:
+        ck.bad('C20.R7', 'LightAggregator::init:anchor', 'LightAggregator::init not found (anchor)')
+        return
+    f = fs[0]
+    verdict, why = None, 'field lagrange_commitments not found in the constructor literal'
+    for n in walk(f['body']):
+        if n.get('k') != 'struct':
+            continue
+        for name, e in n.get('fs', []):
+            if name != 'lagrange_commitments':
+                continue
+            trunc = [x for x in walk(e) if x.get('k') == 'index' and 'Range' in (x.get('ixt') or '')]
+            est = [x for t_ in trunc for x in walk(t_['i']) if x.get('k') == 'bin' and x.get('op') in ('*', '+')]
+            verdict = not est
+            why = ('all Lagrange commitments of the downsized SRS are kept' if not trunc else
+                   ('truncated to a range without arithmetic' if not est else 'truncated to an estimated count (`' + expr_str(trunc[0]['i'])[:60] + '`)'))
+    ck.record('C20.R7', 'LightAggregator::init:lagrange-bases', bool(verdict), why,
+              f'LightAggregator::init: the Lagrange commitments are {why}: an estimate from column counts undercounts the accumulator bases for NB_PROOFS = 1 '
+              f'(88 needed, 76 kept for the test circuit) and aggregate_proofs panics slicing them', hirq.fn_loc(f))
+
+
+def r8_instance_split(ck, w):
+    """the verifier of an aggregated proof refuses a different split of the same public inputs between the inner proofs"""
+    from ..engines import taint
+    ck.rule('C20.R8', 'LightAggregator::verify flattens the per-proof public inputs into one instance vector; the statement it verifies is the LIST OF LISTS, so the '
+                      'length of every inner list must be checked (escaping conditional on `.len()` of the elements of `instances`) before flattening: otherwise '
+                      '[[a],[b,c,d]] is accepted with a proof made for [[a,b],[c,d]]')
+    fs = [f for f in w.all_fns(['aggregator']) if f['name'] == 'verify' and 'LightAggregator' in f['_nid']]
+    if not fs:
+        ck.bad('C20.R8', 'LightAggregator::verify:anchor', 'LightAggregator::verify not found (anchor)')
+        return
+    f = fs[0]
+    inst = [b['i'] for p in f['params'] for b in pat_bindings(p) if b['n'] == 'instances']
+    ok = False
+    if inst:
+        for n in walk(f['body']):
+            if n.get('k') == 'if' and taint.diverges(n['a']):
+                mentions = any(x.get('k') == 'local' and x.get('i') == inst[0] for x in walk(n['c']))
+                lens = any(m.get('m') == 'len' for m in hirq.calls(n['c']))
+                if mentions and lens:
+                    ok = True
+    ck.record('C20.R8', 'LightAggregator::verify:per-proof-instance-count', ok, 'an escaping conditional checks the length of every inner instance list',
+              'LightAggregator::verify flattens `instances` without checking the length of each inner list: a re-split of the same values between the inner proofs '
+              'is accepted', hirq.fn_loc(f))
